@@ -249,6 +249,14 @@ class Interp:
                 return S.SymStr.join(bself, parts)
             return bself.join(parts)
         if isinstance(bself, dict) and name in ("get", "setdefault", "__getitem__") and args and isinstance(args[0], S.SymInt):
+            # fork over the keys present (|keys|+1 paths) instead of over all values of the symbolic key
+            for k in list(bself):
+                if isinstance(k, int) and truth(args[0] == k):
+                    return fn(k, *args[1:])
+            if name == "get":
+                return args[1] if len(args) > 1 else None
+            if name == "__getitem__":
+                raise KeyError("<symbolic key>")
             k = Engine.current.concretize(args[0])
             return fn(k, *args[1:])
         return NotImplemented
@@ -474,6 +482,11 @@ class Interp:
         if isinstance(key, V.SymInt) and isinstance(obj, (list, tuple, dict, bytes, bytearray, memoryview, str)):
             if isinstance(obj, (bytes, bytearray, memoryview)):
                 return V.SymBytes(list(bytes(obj)))[key]
+            if isinstance(obj, dict):
+                for k in list(obj):
+                    if isinstance(k, int) and truth(key == k):
+                        return obj[k]
+                raise KeyError("<symbolic key>")
             key = Engine.current.concretize(key)
         if isinstance(key, slice) and isinstance(obj, (bytes, bytearray, memoryview)) and any(
             isinstance(x, V.SymInt) for x in (key.start, key.stop, key.step)
@@ -706,6 +719,9 @@ def _enum_lookup(cls, v):
         if bool(ok):
             return v
         raise ValueError(f"<symbolic> is not a valid {cls.__name__}")
+    if issubclass(cls, int) and "_missing_" in cls.__dict__:
+        # IntEnum with a catch-all _missing_ (every int is accepted): members compare equal to ints, keep the symbolic int
+        return v
     for m in cls:
         if bool(v == m.value):
             return m
